@@ -12,7 +12,8 @@ for name in sys.argv[1:]:
         env = dict(os.environ, VERIF_REPO=wt, VERIF_NO_EVIDENCE='1', VERIF_CACHE='/var/tmp/nuverif-selftest-cache')
         fired = {}
         for p in [f'C{i:02d}' for i in range(1, 17)]:
-            q = subprocess.run(['python3', '/verif/tools/nv.py', 'check', p], capture_output=True, text=True, env=env, cwd='/verif')
+            TR = os.environ.get('VERIF_TOOLS_ROOT', '/verif')
+            q = subprocess.run(['python3', TR + '/tools/nv.py', 'check', p], capture_output=True, text=True, env=env, cwd=TR)
             v = [l for l in q.stdout.split('\n') if l.startswith('VIOLATION')]
             first = ''
             if v:
